@@ -9,7 +9,34 @@ TB = ("Trusted: Lean 4.33 kernel; axioms ⊆ {propext, Classical.choice, Quot.so
       "the hand-written model is tied to /repo by the sampled correspondence check (Go harness driving the real code in-process "
       "against the compiled Lean driver) and by regenerated source facts — both trusted, not proved. ")
 
+SEQ = ("Operation-level model: every public operation (publish, connect incl. history replay, client close, stalled/failing writer, hub close, restart) is atomic and followed by quiescence; interleavings inside operations are covered by the region-level model (C06/C07/C13/C14) and its controlled-schedule correspondence. ")
+
 CLAIMED = {
+ "C01": dict(
+   text="Theorem over every history of public operations on both transports: everything ever handed to a connection — by live fan-out, history replay or subscription events (the ghost log `enq` is fed by every enqueue site) — matched its subscription and, when private, one of the selectors of a mercure.subscribe claim validated under the subscriber key; anonymous connections never receive a private update; subscription events are always private. Tie: histories through the real Hub.ServeHTTP under synctest (every stream parsed and compared with the model after every op), plus controlled schedules on the transports; oracle 'no private update on an unauthorised stream' evaluated on the implementation alone.",
+   note=TB + SEQ + "Token verification is C03's; selector semantics C11's.",
+   technique="Lean 4 proof (inductive invariant over operation histories of the hub model) + differential correspondence through the HTTP handlers under a virtual clock",
+   design="§8 C01"),
+ "C15": dict(
+   text="Theorems: closing marks every registered subscriber's stream ended; a publish after close changes nothing and is not answered 200; a subscribe after close is refused and registers nothing; closing twice is the identity; a restart keeps the stored history and reports the last stored id; without retention the stored history is exactly the accepted updates after any history including closes and restarts. Region level: see C14's model (close_ends_registered / after_close_rejected). Tie: hub histories with close/restart, and controlled schedules with Close racing the other operations; oracle 'transport closed ⇒ every registered subscriber's channel is closed'.",
+   note=TB + SEQ,
+   technique="Lean 4 proof (operation-level lemmas + history invariant) + differential correspondence (hub histories, controlled schedules)",
+   design="§8 C15"),
+ "C17": dict(
+   text="Theorems over every history: with tracking on, each accepted connection produced exactly one active=true event per selector (in selector order, before it is indexed) and exactly one active=false per selector once it is gone while the hub is open, none before; none at all with tracking off; events only for accepted connections; each event is one private update whose topic is the subscription id; the escaping round-trips and — for the escaping in /repo, regenerated on every run — yields percent-encoded ids (witness theorem for the old '+' escaping, F11). Tie: hub histories with a '*' watcher and a template watcher, selectors with reserved characters / spaces / unicode, every way of ending.",
+   note=TB + SEQ + "On a closed hub nobody is left to tell: active=false is not dispatched there (stated).",
+   technique="Lean 4 proof (ghost event log invariant over histories; byte-level escaping lemmas) + regenerated-fact obligation + differential correspondence",
+   design="§8 C17"),
+ "C18": dict(
+   text="Theorems: on an open hub the index holds exactly the not-yet-gone connections of the current incarnation; the collection is one document per (indexed subscriber, selector), filtered to one selector on request; every listed id dereferences to the same document (given unique subscriber ids, proved for reachable states); unknown ⇒ 404; If-None-Match equal to the last event id ⇒ 304; with subscriber keys configured every endpoint refuses callers without a matching mercure.subscribe selector. Tie: hub histories followed by the three endpoints with every listed id dereferenced, caller claims in {exact, template, '*', unrelated, absent}.",
+   note=TB + SEQ + "gorilla/mux routing on the encoded path is library behaviour (compared, not modelled).",
+   technique="Lean 4 proof (history invariant + endpoint lemmas) + differential correspondence",
+   design="§8 C18"),
+ "C20": dict(
+   text="Theorems over every history: gauge = number of accepted connections whose shutdown has not completed, subscribers counter = number of streams ever accepted, updates counter = number of publishes answered 200; refused publishes and subscribes change nothing. Tie: a PrometheusMetrics on a private registry read after every op of the hub histories (every way a stream can end, refused requests mixed in) and compared with the model; oracle on the implementation alone.",
+   note=TB + SEQ,
+   technique="Lean 4 proof (history invariant) + differential correspondence",
+   design="§8 C20"),
  "C08": dict(
    text="Theorems: carrier precedence of the requested id (header, else lastEventID, else the legacy parameter only under version-7 compatibility); a Last-Event-ID response header exactly when one was requested; for the Bolt negotiation over any stored history: response = requested iff the id is stored (then everything after its first occurrence is replayed), 'earliest' replays the whole retained history, in every other case the response differs and nothing is replayed; the local transport always answers 'earliest'. Tie: the real SubscribeHandler on all 2^3 carrier combinations x id classes x compat x histories (empty, truncated by retention, containing 'earliest' as an id) x transports, response header and replayed stream compared with the model.",
    note=TB + "Sequential negotiation (nothing published during the scan); publishes concurrent with the scan are C07's.",
